@@ -94,6 +94,11 @@ def programs(tier):
                     bodies.append(("if(~e[i]==%d)" % k,
                                    lambda s, k=k: _fe_ifelse(s, lambda s2, i: (~s2.e[i]) == vsc.unsigned(k, 2)),
                                    lambda v, k=k: all(x == (1 if (~E_VALS[i] & 3) == k else 2) for i, x in enumerate(v["l"]))))
+                # arithmetic over non-random operands that wraps at the operands' width (m + 7 is 1 in 3 bits): the
+                # condition is true under both readings (all operands unsigned, 3 bits)
+                bodies.append(("if(m+u7==1)",
+                               lambda s: _fe_ifelse(s, lambda s2, i: (s2.m + vsc.unsigned(7, 3)) == vsc.unsigned(1, 3)),
+                               lambda v: all(x == 1 for x in v["l"])))
                 bodies.append(("if(e[i]>m-1)", lambda s: _fe_ifelse(s, lambda s2, i: s2.e[i] > s2.m - 1),
                                lambda v: all(x == (1 if E_VALS[i] > 1 else 2) for i, x in enumerate(v["l"]))))
             if signed:
@@ -588,6 +593,9 @@ def classify(v):
     view_ = v.get("observed")
     if not isinstance(view_, dict) or "l" not in view_:
         return None
+    if name.endswith("/if(m+u7==1)") and view_["l"] and all(x == 2 for x in view_["l"]) and view_["idx"] == view_["l"]:
+        # the folded condition was computed over unbounded integers (9 == 1 is false): exactly the else body is imposed
+        return "C04-foreach-condition-folded-without-width"
     prog = [p for p in PROGS if p["name"] == name]
     if not prog or prog[0]["size_ok"] is None:
         return None
